@@ -399,6 +399,15 @@ func (b *Builder) findRegistryPackageSource(ctx context.Context, sourceAddr sour
 	if selectedVersion == versions.Unspecified {
 		return sourceaddrs.RemoteSource{}, fmt.Errorf("no available version of %s matches the specified version constraint", pkgAddr)
 	}
+	// Versions that differ in build metadata only have the same precedence,
+	// so several of them can be the newest. Which one is taken must not
+	// depend on the order of the registry's listing: the one that prints
+	// last, as in the order Bundle.RegistryPackageVersions reports.
+	for _, v := range availableVersions {
+		if allowedVersions.Has(v) && !v.LessThan(selectedVersion) && !v.GreaterThan(selectedVersion) && v.String() > selectedVersion.String() {
+			selectedVersion = v
+		}
+	}
 
 	pkgVer := registryPackageVersion{
 		pkg:     pkgAddr,
